@@ -251,6 +251,12 @@ def do_apply_command(ctx):
         ctx.prove(v is None, 'C01:O1.3.non-regular-returns-none')
         mem = ctx.glist('membership')
         ctx.prove(Implies(t != 2, len(mem) == 0) if mem else True, 'C10:O10.4.membership-only-for-membership-entries')
+        # O10.4: a committed membership entry is (re-)applied whenever it is executed - after a restart this is the only place where
+        # entries loaded from the journal take effect, and for entries already applied at append time __doChangeCluster is idempotent
+        ctx.prove(Implies(t == 2, len(mem) == 1) if len(mem) != 1 else True, 'C10:O10.4.committed-membership-entry-applied')
+        for kind_, node_, rev_ in mem:
+            ctx.prove(rev_ is False, 'C10:O10.4.committed-membership-entry-applied-forward')
+            ctx.prove(Eq(node_.idx, _rnode(cid)) if hasattr(node_, 'idx') else False, 'C10:O10.4.applied-request-is-the-entry-payload')
     ctx.prove(log_same(old.get('raftLog'), so.log()), 'C01:O1.3.journal-untouched')
     for n, b in field_unchanged(old, so, ['raftCommitIndex', 'raftLastApplied', 'raftCurrentTerm']):
         ctx.prove(b, 'C01+C04:O1.3.frame.%s' % n)
